@@ -21,6 +21,7 @@ type MonC13 struct {
 	preRaw     map[string]map[string]bool  // name -> raw queries already fetched and linked (hooks)
 	preGroup   map[string]map[string]int   // name -> raw query -> index of the cached query resource it is linked to
 	preSubs    map[string]map[uintptr]bool // rid -> identities of the live connection subscriptions before the step
+	preSettled map[string]bool             // cid|rid -> the gateway had a sent subscription with an empty queue before the step
 	preInSync  map[string]bool             // conn|rid -> the client's copy equalled the announced state before the step
 }
 
